@@ -91,7 +91,7 @@ def run_harness(programs_file, wd, tag, execs=1, seed=1, raw=False, timeout=900)
 def load_meta(path):
     """meta lines: begin markers and per-execution summaries"""
     begun, done = {}, {}
-    for l in open(path):
+    for l in open(path, errors="replace"):
         l = l.strip()
         if not l:
             continue
@@ -109,7 +109,7 @@ def load_meta(path):
 def split_hist(path):
     """-> list of (x, [lines]) per execution"""
     res, cur, x = [], None, None
-    for l in open(path):
+    for l in open(path, errors="replace"):
         if l.startswith('{"e":"X"'):
             if cur is not None:
                 res.append((x, cur))
@@ -125,7 +125,7 @@ def split_hist(path):
 def split_raw(path):
     """-> list of (x, [lines]) per execution of a raw (hook-level) trace file"""
     res, cur, x = [], None, None
-    for l in open(path):
+    for l in open(path, errors="replace"):
         if '"k":"reset"' in l[:40]:
             if cur is not None:
                 res.append((x, cur))
